@@ -279,3 +279,36 @@ def replay_sqrt(family):
         if some != expect_some:
             return True, {'task': task, 'inputs': {k: '%064x' % v for k, v in env.items()}, 'mismatch': 'Fq2::sqrt returned %s for x = %s' % ('Some' if some else 'None', ['%x' % c for c in x])}
     return False, {}
+
+
+def replay_smul(scalars):
+    """native P*k (P = 3G, normalised and not) against the affine double-and-add reference, G1 and G2"""
+    exe = kani.build_replay('release')
+    if not exe:
+        return False, {'error': 'replay build failed'}
+    cat = [0, 1, 2, 3, RORD - 1, RORD - 2, (RORD + 1) // 2, 1 << 64, (1 << 64) - 1, (1 << 128) + 5, (1 << 192) + (1 << 64) - 1, 1 << 255 if (1 << 255) < RORD else 1 << 254,
+           0x8000000000000000, (1 << 200) + 1, 0xFFFFFFFFFFFFFFFF0000000000000000FFFFFFFFFFFFFFFF]
+    ks = [k % RORD for k in list(scalars) + cat]
+    for k in ks:
+        for F, g in ((F1, 'g1'), (F2, 'g2')):
+            G = (G1X, G1Y) if g == 'g1' else (G2X, G2Y)
+            P = aff_mul(F, G, 3)
+            want = aff_mul(F, P, k) if k else None
+            for mode in ('j', 'a'):
+                p = subprocess.run([exe, '--smul', g, mode, '%064x' % k], capture_output=True, text=True, timeout=120)
+                out = p.stdout.strip().splitlines()
+                if not out:
+                    return False, {'error': 'no output ' + p.stderr[-200:]}
+                if 'MISMATCH' in out[0]:
+                    return True, {'group': g, 'scalar': '%064x' % k, 'mismatch': out[0]}
+                got = None
+                if out[-1] != 'INF':
+                    b = bytes.fromhex(out[-1])
+                    n = 32 * F.n
+                    if F.n == 1:
+                        got = (int.from_bytes(b[0:32], 'big'), int.from_bytes(b[32:64], 'big'))
+                    else:
+                        got = ((int.from_bytes(b[32:64], 'big'), int.from_bytes(b[0:32], 'big')), (int.from_bytes(b[96:128], 'big'), int.from_bytes(b[64:96], 'big')))
+                if got != want:
+                    return True, {'group': g, 'representation': mode, 'scalar': '%064x' % k, 'mismatch': 'P*k differs from the k-fold sum of P (affine double-and-add reference)'}
+    return False, {}
